@@ -178,8 +178,8 @@ Proof.
     + destruct ended; [apply good_close_one, M|]. apply good_update; [apply pres_set_fc|exact M].
   - destruct (find_active sid (k_streams c)) as [s|]; [|apply good_id]. apply good_close_one, M.
   - apply good_id.
-  - destruct ((0 <? id) && Z.even id); [apply good_id|].
-    destruct (k_goaway c && (k_prev c <? id)); [apply good_id|].
+  - destruct ((0 <? id) && Z.even id); [apply good_close_conn; reflexivity|].
+    destruct (k_goaway c && (k_prev c <? id)); [apply good_close_conn; reflexivity|].
     destruct (negb (any_active c)); [apply good_close_conn; reflexivity|].
     constructor; cbn [fst snd with_streams k_streams k_next k_mode].
     + intros k. apply close_where_count.
@@ -442,8 +442,8 @@ Proof.
     + destruct ended; [apply frozen_close|]. cbn [fst with_streams k_streams]. eapply frozen_update; eauto.
   - destruct (find_active sid (k_streams c)) as [s|]; [apply frozen_close|apply frozen_refl].
   - apply frozen_refl.
-  - destruct ((0 <? id) && Z.even id); [apply frozen_refl|].
-    destruct (k_goaway c && (k_prev c <? id)); [apply frozen_refl|].
+  - destruct ((0 <? id) && Z.even id); [apply frozen_close|].
+    destruct (k_goaway c && (k_prev c <? id)); [apply frozen_close|].
     destruct (negb (any_active c)); apply frozen_close.
   - destruct (inc =? 0); [|apply frozen_refl].
     destruct (find_active sid (k_streams c)); [apply frozen_close|apply frozen_refl].
@@ -593,8 +593,8 @@ Proof.
     + destruct ended; [apply tags_close_one|apply tags_nil].
   - destruct (find_active sid (k_streams c)) as [s|]; [apply tags_close_one|apply tags_nil].
   - apply tags_nil.
-  - destruct ((0 <? id) && Z.even id); [apply tags_nil|].
-    destruct (k_goaway c && (k_prev c <? id)); [apply tags_nil|].
+  - destruct ((0 <? id) && Z.even id); [apply tags_close_conn|].
+    destruct (k_goaway c && (k_prev c <? id)); [apply tags_close_conn|].
     destruct (negb (any_active c)); [apply tags_close_conn|]. cbn [snd]. apply tags_close.
   - destruct (inc =? 0); [|apply tags_nil].
     destruct (find_active sid (k_streams c)); [apply tags_close_one|apply tags_nil].
